@@ -160,8 +160,10 @@ func valueType(s Schema, t Term) string {
 			}
 		case "const":
 			out = "reference to a constant"
+		case "scalar":
+			out = "reference to a named " + target.A
 		default:
-			out = "referenced struct, " + map[string]string{"struct": "partial", "structfull": "complete", "nest1": "partial (over a struct with its own struct default)", "nest2": "partial"}[t.Default] + " default"
+			out = "referenced struct, " + map[string]string{"struct": "partial", "struct2": "partial", "structfull": "complete", "nest1": "partial (over a struct with its own struct default)", "nest2": "partial"}[t.Default] + " default"
 		}
 	case "array":
 		out = "list of " + valueType(s, t.Sub[0])
@@ -171,10 +173,10 @@ func valueType(s Schema, t Term) string {
 	case "map":
 		out = "map"
 	case "struct":
-		out = "inline struct, " + map[string]string{"struct": "partial", "structfull": "complete", "nest1": "partial (over a struct with its own struct default)", "nest2": "partial"}[t.Default] + " default"
+		out = "inline struct, " + map[string]string{"struct": "partial", "struct2": "partial", "structfull": "complete", "nest1": "partial (over a struct with its own struct default)", "nest2": "partial"}[t.Default] + " default"
 	case "disj":
 		if t.Disc {
-			out = "discriminated union branch, " + map[string]string{"struct": "partial", "structfull": "complete", "nest1": "partial (over a struct with its own struct default)", "nest2": "partial"}[t.Default] + " default"
+			out = "discriminated union branch, " + map[string]string{"struct": "partial", "struct2": "partial", "structfull": "complete", "nest1": "partial (over a struct with its own struct default)", "nest2": "partial"}[t.Default] + " default"
 		} else {
 			which := "first"
 			if t.Default == "branch2" {
@@ -202,6 +204,9 @@ type expectation struct {
 	Want     any // JSON value (json.Number for numbers)
 	// ViaPass names the schema transformation that declares the default ("" = the source schema itself)
 	ViaPass string
+	// S is the schema (package) the object belongs to; Object is "q/<name>" for an
+	// object of the unit's second package
+	S Schema
 	// Note refines the value type in the failure kind (position of the constant in a `const | type` union)
 	Note string
 }
@@ -243,7 +248,21 @@ func constantOf(s Schema, t Term) (any, bool) {
 	return nil, false
 }
 
+// expectations lists the declared fields of a case: the objects of its schema
+// (package p) and, for a unit that holds a second package, the objects of that package.
 func expectations(s Schema) []expectation {
+	pi, hasPass := passOf(s)
+	out := expectationsIn(pi, hasPass, s, gschema.Pkg)
+	if hasPass && pi.Second != nil {
+		for _, e := range expectationsIn(pi, hasPass, *pi.Second, secondPkg) {
+			e.Object = secondPkg + "/" + e.Object
+			out = append(out, e)
+		}
+	}
+	return out
+}
+
+func expectationsIn(pi passInfo, hasPass bool, s Schema, pkg string) []expectation {
 	var out []expectation
 	var fields func(obj string, path []string, t Term)
 	fields = func(obj string, path []string, t Term) {
@@ -258,9 +277,9 @@ func expectations(s Schema) []expectation {
 				out = append(out, expectation{Object: obj, Path: p, T: ft, Required: f.Required, Want: s.DefaultValue(ft)})
 				continue
 			}
-			if pi, ok := passOf(s); ok && obj == "Root" && len(path) == 0 {
+			if hasPass && len(path) == 0 {
 				// disjunction_with_constant_to_default: "`type | constant` becomes `type` with the constant as default"
-				if pi.ConstDisj && ft.K == "disj" && len(ft.Sub) == 2 {
+				if pi.ConstDisj && obj == "Root" && ft.K == "disj" && len(ft.Sub) == 2 {
 					for bi, b := range ft.Sub {
 						if c, isConst := constantOf(s, b); isConst {
 							note := "constant listed last"
@@ -273,7 +292,7 @@ func expectations(s Schema) []expectation {
 					continue
 				}
 				// fields_set_default: "sets the default value for the given fields"
-				if v, set := pi.SetDefaults[f.Name]; set {
+				if v, set := pi.SetDefaults[pkg+"."+obj+"."+f.Name]; set {
 					out = append(out, expectation{Object: obj, Path: p, T: ft, Required: f.Required, Want: v, ViaPass: pi.Name})
 					continue
 				}
@@ -288,6 +307,9 @@ func expectations(s Schema) []expectation {
 		if o.T.K == "struct" {
 			fields(o.Name, nil, o.T)
 		}
+	}
+	for i := range out {
+		out[i].S = s
 	}
 	return out
 }
@@ -530,6 +552,24 @@ func main() {
 		if _, err := fmt.Sscanf(u.ID, "s%04d", &idx); err == nil && idx < len(schemas) {
 			if pi, ok := passOf(schemas[idx]); ok {
 				u.PassesYAML = pi.YAML
+				if pi.Second != nil {
+					// the unit holds a second package with the same object and field names
+					format := map[byte]string{'j': "jsonschema", 'o': "openapi", 'c': "cue"}[u.ID[len(u.ID)-1]]
+					if r, err := pi.Second.Render(format); err == nil {
+						toQ := strings.NewReplacer("p.json", secondPkg+".json", "p/schema.cue", secondPkg+"/schema.cue", "package p\n", "package "+secondPkg+"\n",
+							"package: p}", "package: "+secondPkg+"}", "%DIR%/p'", "%DIR%/"+secondPkg+"'")
+						files := map[string]string{}
+						for name, content := range u.Files {
+							files[name] = content
+						}
+						for name, content := range r.Files {
+							files[toQ.Replace(name)] = toQ.Replace(content)
+						}
+						u.Files = files
+						u.InputYAML += "\n  " + toQ.Replace(r.InputYAML)
+						u.ExtraPkgs = []string{secondPkg}
+					}
+				}
 			}
 		}
 	}, nil, nil)
@@ -568,10 +608,10 @@ func main() {
 			if diag != "" {
 				base += ": " + diag
 			}
-			vt := valueType(c.Schema, e.T)
+			vt := valueType(e.S, e.T)
 			if e.ViaPass != "" {
 				if e.Note != "" {
-					vt = valueType(c.Schema, e.T.Sub[0]) + "|" + valueType(c.Schema, e.T.Sub[1]) + ", " + e.Note
+					vt = valueType(e.S, e.T.Sub[0]) + "|" + valueType(e.S, e.T.Sub[1]) + ", " + e.Note
 				}
 				vt += " (declared through " + e.ViaPass + ")"
 			}
@@ -629,7 +669,15 @@ func main() {
 				return x
 			}
 			executions++
-			resp, died := prep.Driver.Do(map[string]any{"op": "default", "type": c.Unit.ID + "." + obj})
+			typ := c.Unit.ID + "." + obj
+			if pkg, name, second := strings.Cut(obj, "/"); second {
+				if len(c.Unit.ExtraPkgs) == 0 {
+					x.blocked = "second package not expressible in this format"
+					return x
+				}
+				typ = c.Unit.ID + "/" + pkg + "." + name
+			}
+			resp, died := prep.Driver.Do(map[string]any{"op": "default", "type": typ})
 			switch {
 			case died:
 				x.failure, x.diag = "go-ctor-crashes", "the constructor kills the process"
@@ -673,8 +721,18 @@ func main() {
 				return x
 			}
 			executions++
-			resp, died := py.Do(map[string]any{"op": "default", "unit": c.Unit.ID, "pkg": gschema.Pkg, "class": obj})
+			pkg, class := gschema.Pkg, obj
+			if q, name, second := strings.Cut(obj, "/"); second {
+				if len(c.Unit.ExtraPkgs) == 0 {
+					x.blocked = "second package not expressible in this format"
+					return x
+				}
+				pkg, class = q, name
+			}
+			resp, died := py.Do(map[string]any{"op": "default", "unit": c.Unit.ID, "pkg": pkg, "class": class})
 			switch {
+			case resp != nil && resp["import_error"] != nil:
+				x.blocked = "python blocked_by=C02 (module does not import)"
 			case died:
 				x.failure, x.diag = "python-ctor-crashes", "the constructor kills the interpreter"
 			case resp["error"] != nil:
@@ -702,7 +760,7 @@ func main() {
 				label = "constant"
 			}
 			states[c.Format+" :: "+c.Schema.String()+" :: "+e.Object+"."+strings.Join(e.Path, ".")] = true
-			if ok, why := inScope(c.Schema, e, c.Format); !ok {
+			if ok, why := inScope(e.S, e, c.Format); !ok {
 				bump("out-of-scope: " + why)
 				continue
 			}
@@ -786,7 +844,7 @@ func main() {
 				// declared default/constant and are not named by the override: the statement
 				// does not say what they hold, but "the two languages agree with each other
 				// on those fields" applies to them as to any field with a declared default.
-				if tt, ok := structTarget(c.Schema, e.T); ok && !e.Constant && g.present && p.present {
+				if tt, ok := structTarget(e.S, e.T); ok && !e.Constant && g.present && p.present {
 					named, _ := e.Want.(map[string]any)
 					gdoc, pdoc := goCtor(e.Object).doc, pyCtor(e.Object).doc
 					var nested func(tt Term, path []string, named map[string]any, depth int)
@@ -797,10 +855,10 @@ func main() {
 							}
 							ft := tt.Sub[i]
 							var want any
-							if cst, isConst := constantOf(c.Schema, ft); isConst && !ft.Nullable {
+							if cst, isConst := constantOf(e.S, ft); isConst && !ft.Nullable {
 								want = cst
 							} else if ft.Default != "" {
-								want = c.Schema.DefaultValue(ft)
+								want = e.S.DefaultValue(ft)
 							} else {
 								continue
 							}
@@ -817,11 +875,11 @@ func main() {
 								if ph == "" {
 									ph, pd = "holds the nested declared default", ""
 								}
-								ne := expectation{Object: e.Object, Path: np, T: ft, Required: f.Required, Want: want}
+								ne := expectation{Object: e.Object, Path: np, T: ft, Required: f.Required, Want: want, S: e.S}
 								fail(ne, "go-vs-python-differ", strings.TrimSpace("nested in a struct default: go "+gh+" "+gd+"; python "+ph+" "+pd), fmt.Sprintf("inside the struct default of %s: Go New%s() encodes to %s; Python %s() encodes to %s", strings.Join(e.Path, "."), e.Object, g.text, e.Object, p.text), map[string]any{"go": g.text, "python": p.text})
 								continue
 							}
-							if nt, ok := structTarget(c.Schema, ft); ok && depth > 0 {
+							if nt, ok := structTarget(e.S, ft); ok && depth > 0 {
 								nm, _ := want.(map[string]any)
 								nested(nt, np, nm, depth-1)
 							}
